@@ -3,6 +3,7 @@ package main
 import (
 	"bufio"
 	"bytes"
+	"context"
 	"crypto/x509"
 	"encoding/hex"
 	"fmt"
@@ -24,10 +25,14 @@ import (
 // header values may hold any byte except CR/LF), and are judged by the oracles only: the server
 // must answer with a complete HTTP response and must not log a panic.
 //
+//	fresh <cfg>          new instances of that configuration (empty replay cache, no sessions), clock reset
+//	clock <delta>        move the clock of the proof gate (ProofConfig.Now) by delta seconds (may be negative)
 //	hx <cfg> <VERB> <request-target x..> <headers> <mut> <tag> body [{S ...} | x<hex>]
 //	    <cfg>     = plain | xfcc | xfccv | pem | pemfp | bearer | proof | chain
 //	    <headers> = - | hexname=hexvalue,...   (value "@PROOF": a freshly minted valid proxy
-//	                proof; "@PROOFREPLAY": the previous one again)
+//	                proof for the current clock; "@PROOFREPLAY": the previous one again;
+//	                "@STICKY:own|foreign|other|expired|closed": a genuine sticky-session token
+//	                (see c03StickyToken); "@CRED": the configuration's valid credential)
 //
 // Every configuration has: upload-URL provider, token introspection, sticky sessions, describe /
 // landing / not-found pages, OAuth resource metadata + PKCE routes, CORS, max_request_bytes.
@@ -41,6 +46,14 @@ func (c03Provider) GenerateUploadURL(*arrow.Schema) (vgirpc.UploadURL, error) {
 var c03ProofKey = bytes.Repeat([]byte{0x42}, 32)
 
 const c03ProofNow = int64(2000000000)
+
+// c03Clock is the clock of the proof-gated servers (ProofConfig.Now) and of the proofs the
+// harness mints; `clock <delta>` lines move it, `fresh <cfg>` resets it.
+var c03Clock = c03ProofNow
+
+// c03TokenKey is shared by every wide server and its sibling, so a sticky / state token sealed by
+// one instance authenticates on the other (only the embedded server id differs).
+var c03TokenKey = bytes.Repeat([]byte{7}, 32)
 
 var c03Wide = map[string]*c03HTTP{}
 
@@ -82,15 +95,20 @@ func c03WideAuth(cfg string) (vgirpc.AuthenticateFunc, error) {
 	case "proof":
 		return vgirpc.ProofAuthenticate(vgirpc.ProofConfig{Mode: vgirpc.ProofModeRequire, OriginID: "origin-1",
 			Secrets: map[string]vgirpc.ProofSecret{"k1": {Secret: c03ProofKey, Label: "proxy"}}, SkewSeconds: 300,
-			Now: func() time.Time { return time.Unix(c03ProofNow, 0) }}, bearer)
+			Now: func() time.Time { return time.Unix(c03Clock, 0) }}, bearer)
 	case "chain":
 		return vgirpc.ChainAuthenticate(xfcc, pem, bearer), nil
 	}
 	return nil, fmt.Errorf("unknown configuration %q", cfg)
 }
 
-func c03WideFor(cfg string) (*c03HTTP, error) {
-	if h, ok := c03Wide[cfg]; ok {
+func c03WideFor(cfg string) (*c03HTTP, error) { return c03WideInstance(cfg, "srv-c03") }
+
+// c03WideInstance returns the server of a configuration; serverID "srv-sibling" is a second worker
+// of the same deployment (same token key, same authenticator, another server id).
+func c03WideInstance(cfg, serverID string) (*c03HTTP, error) {
+	key := cfg + "/" + serverID
+	if h, ok := c03Wide[key]; ok {
 		return h, nil
 	}
 	auth, err := c03WideAuth(cfg)
@@ -98,8 +116,22 @@ func c03WideFor(cfg string) (*c03HTTP, error) {
 		return nil, err
 	}
 	srv := c02NewServer(false)
-	srv.SetServerID("srv-c03")
-	hs := vgirpc.NewHttpServer(srv)
+	srv.SetServerID(serverID)
+	// ss opens a sticky session (a = 1: one that is already expired when the response arrives)
+	vgirpc.Unary(srv, "ss", func(_ context.Context, ctx *vgirpc.CallContext, p c02P1) (int64, error) {
+		ttl := time.Duration(0)
+		if p.A == 1 {
+			ttl = time.Nanosecond
+		}
+		if err := ctx.OpenSession(&struct{}{}, ttl); err != nil {
+			return 0, err
+		}
+		return p.A, nil
+	})
+	hs, err := vgirpc.NewHttpServerWithKey(srv, c03TokenKey)
+	if err != nil {
+		return nil, err
+	}
 	hs.SetEnableDescribePage(true)
 	hs.SetEnableLandingPage(true)
 	hs.SetEnableNotFoundPage(true)
@@ -135,8 +167,86 @@ func c03WideFor(cfg string) (*c03HTTP, error) {
 	ts.Config.ErrorLog = log.New(lb, "", 0)
 	ts.Start()
 	h := &c03HTTP{ts: ts, log: lb}
-	c03Wide[cfg] = h
+	c03Wide[key] = h
 	return h, nil
+}
+
+// c03Fresh drops the instances of a configuration (their replay caches, sessions) and resets the
+// clock, so that a multi-request history is replayable from its script alone.
+func c03Fresh(cfg string) {
+	for _, id := range []string{"srv-c03", "srv-sibling"} {
+		if h, ok := c03Wide[cfg+"/"+id]; ok {
+			go h.ts.Close() // Close waits for idle keep-alive connections; nothing depends on it
+			delete(c03Wide, cfg+"/"+id)
+		}
+	}
+	c03Clock = c03ProofNow
+	c03LastProof = ""
+}
+
+// c03ValidAuth: request headers with which the configuration's authenticator admits the caller
+// (principal "introspector" where the scheme names one); nil when the harness has no valid
+// credential for it (PEM certificates).
+func c03ValidAuth(cfg string, principal2 bool) [][2]string {
+	tok := "Bearer tok1"
+	if principal2 {
+		tok = "Bearer tok2"
+	}
+	switch cfg {
+	case "plain":
+		return [][2]string{}
+	case "xfcc", "xfccv":
+		if principal2 {
+			return [][2]string{{"X-Forwarded-Client-Cert", `Hash=def;Subject="CN=bob"`}}
+		}
+		return [][2]string{{"X-Forwarded-Client-Cert", `Hash=abc;Subject="CN=alice"`}}
+	case "bearer", "chain":
+		return [][2]string{{"Authorization", tok}}
+	case "proof":
+		return [][2]string{{"Authorization", tok}, {"VGI-Proxy-Proof", c03Proof(false)}}
+	}
+	return nil
+}
+
+// c03StickyToken obtains a GENUINE sticky-session token for a `VGI-Session` header:
+//
+//	own      opened on this server for this caller
+//	foreign  opened on the sibling worker (same key, another server id)
+//	other    opened on this server by another principal
+//	expired  opened on this server with a TTL that has already run out
+//	closed   opened on this server and then closed with DELETE /__session__
+func c03StickyToken(cfg, kind string) string {
+	inst, a, p2 := "srv-c03", int64(0), false
+	switch kind {
+	case "foreign":
+		inst = "srv-sibling"
+	case "other":
+		p2 = true
+	case "expired":
+		a = 1
+	}
+	auth := c03ValidAuth(cfg, p2)
+	if auth == nil {
+		return "no-valid-credential"
+	}
+	h, err := c03WideInstance(cfg, inst)
+	if err != nil {
+		return "no-server"
+	}
+	var body bytes.Buffer
+	meta := [][2]string{{"vgi_rpc.method", "ss"}, {"vgi_rpc.request_version", "1"}}
+	_ = c02Encode(&body, c02Stream{schema: c02P1f, batches: []c02Batch{{rows: 1, cells: []int64{a}, meta: meta}}})
+	hdrs := append([][2]string{{"Content-Type", c03Arrow}, {"VGI-Session-Accept", "true"}}, auth...)
+	_, _, rh, err := c03RawRequest(h.ts.Listener.Addr().String(), "POST", "/ss", hdrs, body.Bytes())
+	if err != nil || rh.Get("VGI-Session") == "" {
+		return "no-token"
+	}
+	tok := rh.Get("VGI-Session")
+	if kind == "closed" {
+		del := append([][2]string{{"VGI-Session", tok}}, c03ValidAuth(cfg, false)...)
+		_, _, _, _ = c03RawRequest(h.ts.Listener.Addr().String(), "DELETE", "/__session__", del, nil)
+	}
+	return tok
 }
 
 var c03ProofSeq int
@@ -147,7 +257,7 @@ func c03Proof(replay bool) string {
 		return c03LastProof
 	}
 	c03ProofSeq++
-	p, err := vgirpc.MintProof(c03ProofKey, "k1", "origin-1", c03ProofNow, fmt.Sprintf("nonce-%d", c03ProofSeq))
+	p, err := vgirpc.MintProof(c03ProofKey, "k1", "origin-1", c03Clock, fmt.Sprintf("n%021d", c03ProofSeq))
 	if err != nil {
 		return "mint-failed"
 	}
@@ -156,10 +266,10 @@ func c03Proof(replay bool) string {
 }
 
 // c03RawRequest sends one HTTP/1.1 request over a fresh TCP connection and reads the response.
-func c03RawRequest(addr, verb, target string, headers [][2]string, body []byte) (status int, respBody []byte, err error) {
+func c03RawRequest(addr, verb, target string, headers [][2]string, body []byte) (status int, respBody []byte, hdr http.Header, err error) {
 	conn, err := net.DialTimeout("tcp", addr, 5*time.Second)
 	if err != nil {
-		return 0, nil, fmt.Errorf("dial: %w", err)
+		return 0, nil, nil, fmt.Errorf("dial: %w", err)
 	}
 	defer conn.Close()
 	_ = conn.SetDeadline(time.Now().Add(30 * time.Second))
@@ -174,21 +284,21 @@ func c03RawRequest(addr, verb, target string, headers [][2]string, body []byte) 
 	req.WriteString("\r\n")
 	req.Write(body)
 	if _, err := conn.Write(req.Bytes()); err != nil {
-		return 0, nil, fmt.Errorf("write: %w", err)
+		return 0, nil, nil, fmt.Errorf("write: %w", err)
 	}
 	resp, err := http.ReadResponse(bufio.NewReader(conn), &http.Request{Method: verb})
 	if err != nil {
-		return 0, nil, fmt.Errorf("no response: %w", err)
+		return 0, nil, nil, fmt.Errorf("no response: %w", err)
 	}
 	defer resp.Body.Close()
 	b, rerr := io.ReadAll(resp.Body)
 	if rerr != nil {
-		return resp.StatusCode, b, fmt.Errorf("incomplete body: %w", rerr)
+		return resp.StatusCode, b, resp.Header, fmt.Errorf("incomplete body: %w", rerr)
 	}
-	return resp.StatusCode, b, nil
+	return resp.StatusCode, b, resp.Header, nil
 }
 
-func c03ParseHeaders(s string) ([][2]string, bool) {
+func c03ParseHeaders(s, cfg string) ([][2]string, bool) {
 	if s == "-" {
 		return nil, true
 	}
@@ -204,11 +314,17 @@ func c03ParseHeaders(s string) ([][2]string, bool) {
 			return nil, false
 		}
 		val := string(v)
-		switch val {
-		case "@PROOF":
+		switch {
+		case val == "@PROOF":
 			val = c03Proof(false)
-		case "@PROOFREPLAY":
+		case val == "@PROOFREPLAY":
 			val = c03Proof(true)
+		case strings.HasPrefix(val, "@STICKY:"):
+			val = c03StickyToken(cfg, val[len("@STICKY:"):])
+		case val == "@CRED": // the configuration's own valid credential, in whatever header it lives
+			if va := c03ValidAuth(cfg, false); len(va) > 0 && string(k) == va[0][0] {
+				val = va[0][1]
+			}
 		}
 		out = append(out, [2]string{string(k), val})
 	}
@@ -223,7 +339,7 @@ func c03ExecWide(c *Case, l string, f []string) {
 	}
 	cfg, verb, mut, tag := f[1], f[2], f[5], f[6]
 	target, ok1 := UnX(f[3])
-	headers, ok2 := c03ParseHeaders(f[4])
+	headers, ok2 := c03ParseHeaders(f[4], f[1])
 	var data []byte
 	ok3 := true
 	switch {
@@ -231,7 +347,7 @@ func c03ExecWide(c *Case, l string, f []string) {
 	case len(f) == 9 && strings.HasPrefix(f[8], "x"):
 		data, ok3 = UnX(f[8])
 	default:
-		data, ok3 = c03Encode(c03SubstTokens(f[8:], false))
+		data, ok3 = c03Encode(c03SubstWideTokens(c03SubstTokens(f[8:], false), cfg))
 	}
 	if !ok1 || !ok2 || !ok3 || len(target) == 0 || bytes.ContainsAny(target, " \r\n") || strings.ContainsAny(verb, " \r\n") {
 		c.Out(l, "err:bad-op")
@@ -252,7 +368,11 @@ func c03ExecWide(c *Case, l string, f []string) {
 	}
 	c.Stat("wide:" + cfg + ":" + tag)
 	h.log.take()
-	status, body, err := c03RawRequest(h.ts.Listener.Addr().String(), verb, string(target), headers, data)
+	t0 := time.Now()
+	status, body, _, err := c03RawRequest(h.ts.Listener.Addr().String(), verb, string(target), headers, data)
+	if d := time.Since(t0); d > 300*time.Millisecond {
+		c.Stat(fmt.Sprintf("slow(>300ms):%s:%s", verb, strings.SplitN(string(target), "?", 2)[0]))
+	}
 	lg := h.log.take()
 	if err != nil {
 		cls := "http-no-response-" + tag
@@ -270,4 +390,52 @@ func c03ExecWide(c *Case, l string, f []string) {
 	}
 	_ = body
 	c.Stat(fmt.Sprintf("wide-status:%d", status))
+}
+
+// c03SubstWideTokens replaces metadata values "@WINIT:<own|sibling>:<method>" by a genuine stream
+// state token minted by POST /<method>/init on this configuration's own or sibling instance
+// (valid credentials), i.e. a continuation token that is authentic but possibly another worker's.
+func c03SubstWideTokens(words []string, cfg string) []string {
+	marker := hex.EncodeToString([]byte("@WINIT:"))
+	out := append([]string{}, words...)
+	for i, w := range out {
+		if !strings.Contains(w, "="+marker) {
+			continue
+		}
+		kvs := strings.Split(w, ",")
+		for j, kv := range kvs {
+			p := strings.SplitN(kv, "=", 2)
+			if len(p) == 2 && strings.HasPrefix(p[1], marker) {
+				spec, _ := hex.DecodeString(p[1][len(marker):])
+				parts := strings.SplitN(string(spec), ":", 2)
+				tok := []byte("no-token")
+				if len(parts) == 2 {
+					inst := "srv-c03"
+					if parts[0] == "sibling" {
+						inst = "srv-sibling"
+					}
+					if auth := c03ValidAuth(cfg, false); auth != nil {
+						if h, err := c03WideInstance(cfg, inst); err == nil {
+							cols, cells := c02P3f, []int64{20, 2, 99}
+							if parts[1] == "xh1" {
+								cols, cells = c02P1f, []int64{0}
+							}
+							var buf bytes.Buffer
+							_ = c02Encode(&buf, c02Stream{schema: cols, batches: []c02Batch{{rows: 1, cells: cells,
+								meta: [][2]string{{"vgi_rpc.method", parts[1]}, {"vgi_rpc.request_version", "1"}}}}})
+							hdrs := append([][2]string{{"Content-Type", c03Arrow}}, auth...)
+							if _, body, _, err := c03RawRequest(h.ts.Listener.Addr().String(), "POST", "/"+parts[1]+"/init", hdrs, buf.Bytes()); err == nil {
+								if t := vgirpc.FindStateToken(body); t != nil {
+									tok = t
+								}
+							}
+						}
+					}
+				}
+				kvs[j] = p[0] + "=" + hex.EncodeToString(tok)
+			}
+		}
+		out[i] = strings.Join(kvs, ",")
+	}
+	return out
 }
